@@ -48,6 +48,32 @@ def _self_attr(expr):
     return None
 
 
+def _source_attrs(expr, init_node, cls_name, depth=0):
+    """State attributes named by a transition's source expression: one state, a display of states, a display with a
+    starred local list, `list(<local list>)`, a sum of such lists, or a local bound once to one of these."""
+    if depth > 4:
+        raise AnalysisError(f"{cls_name}: transition sources too deeply nested")
+    if isinstance(expr, (ast.List, ast.Tuple)):
+        out = []
+        for e in expr.elts:
+            if isinstance(e, ast.Starred):
+                out.extend(_source_attrs(e.value, init_node, cls_name, depth + 1))
+            else:
+                out.extend(_source_attrs(e, init_node, cls_name, depth + 1) if not _self_attr(e) else [_self_attr(e)])
+        return out
+    if _self_attr(expr):
+        return [_self_attr(expr)]
+    if isinstance(expr, ast.Call) and isinstance(expr.func, ast.Name) and expr.func.id in ("list", "tuple") and len(expr.args) == 1 and not expr.keywords:
+        return _source_attrs(expr.args[0], init_node, cls_name, depth + 1)
+    if isinstance(expr, ast.BinOp) and isinstance(expr.op, ast.Add):
+        return _source_attrs(expr.left, init_node, cls_name, depth + 1) + _source_attrs(expr.right, init_node, cls_name, depth + 1)
+    if isinstance(expr, ast.Name):
+        defs = rules.single_assignments(init_node)
+        if expr.id in defs:
+            return _source_attrs(defs[expr.id], init_node, cls_name, depth + 1)
+    raise AnalysisError(f"{cls_name}: transition sources `{norm(expr)}` are not a list of the machine's states")
+
+
 def extract(repo, cls_name: str) -> MachineDecl:
     cls = repo.cls(cls_name)
     init = cls.methods.get("__init__")
@@ -90,7 +116,7 @@ def extract(repo, cls_name: str) -> MachineDecl:
                 dst = a[2] if len(a) > 2 else kw.get("destination")
                 if not isinstance(tname, ast.Constant):
                     raise AnalysisError(f"{cls_name}: transition name is not a literal: {norm(elt)}")
-                srcs = [_self_attr(e) for e in src.elts] if isinstance(src, (ast.List, ast.Tuple)) else [_self_attr(src)]
+                srcs = _source_attrs(src, init.node, cls_name)
                 m.transitions.append({"name": tname.value, "sources": srcs, "dest": _self_attr(dst), "where": elt.lineno})
     # handler registrations:  self.<state>.events.<ev>.register(self.<handler>)
     for call in calls_in(init.node):
